@@ -23,6 +23,7 @@ CONSTANTS
   EnableG2C = TRUE
   Adversary = FALSE
   UseTCP = FALSE
+  WFailBudget = 0
   ChanUnderLock = TRUE
   AckChanCheck = TRUE
   Urgent = TRUE
